@@ -38,6 +38,10 @@ def oracle(res):
                 if not any(c["i"] < i < r["i"] and t == th and e == r["r"] for (i, t, e) in intrs):
                     out.append("thread_yield returned %d but no interrupt arrived during it (stale interrupt)" % r["r"])
             continue
+        if c["op"] == "waiti":
+            if th in shut and r["t"] - c["t"] > 10000:
+                out.append("a shut-down thread blocked for %d us (> 10 ms) in semaphore wait" % (r["t"] - c["t"]))
+            continue
         if c["op"] != "sleep":
             continue
         us = c["args"][0]
@@ -102,7 +106,7 @@ def run(rep, tier, seed, replay=None):
     for res in results:
         nev += len(res.trace)
         for c, r in sync_eval.calls_with_rets(res.trace):
-            if r is not None and c["op"] in ("sleep", "yield"):
+            if r is not None and c["op"] in ("sleep", "yield", "waiti"):
                 rep.distinct((c["op"], c["args"][0] if c["args"] else "", r["r"], r["e"]))
     rep.count(nev)
     rep.cov["events"] = nev
